@@ -34,7 +34,7 @@ def main(argv: list[str]) -> int:
             budget_s=u.get("budget_s", 60),
             per_path_s=u.get("per_path_s", 20),
             seed=seed,
-            certify=u.get("certify", False),
+            certify=u.get("certify", True),
             n_samples=u.get("n_samples", 3),
             n_validate=u.get("n_validate", 2),
         )
